@@ -49,7 +49,7 @@ ASSUMPTIONS = [
 # (at the time of writing: KF-layout-drift-over-shuffle, KF-minmax-empty, KF-pad-wide,
 # KF-tensordot-int-dtype, KF-argext-ties-axis-none, KF-setitem-int-with-negstep).
 EXCLUDE = None
-WEIGHTS = dict(P.FAMILY_WEIGHTS, map_blocks=6)
+WEIGHTS = dict(P.FAMILY_WEIGHTS, map_blocks=6, dask_index=3)  # lazily computed indices only here (see programs.py)
 MODES = ("dtype", "infer", "blockwise")
 SPIES = ("spy_times_two", "spy_plus_one", "spy_negate")
 
@@ -462,6 +462,7 @@ def check(case, vals=None):
     atol = util.float_tolerance(vals, [s["op"] for s in prog["stmts"]])
     L = len(prog["leaves"])
     mark = len(S.REQUESTS)
+    dask_index = any(s["op"] == "getitem_dask0d" for s in prog["stmts"])
     for o in prog["outputs"]:
         with S.phase("execute"):
             try:
@@ -470,10 +471,17 @@ def check(case, vals=None):
                 refused = True
                 continue
             except Exception as e:
+                if dask_index:
+                    # what a lazily computed index returns (or how it fails) is C12's business, where the
+                    # defects of this form are listed; this engine only audits WHEN the index is computed
+                    labs.add("compute-raised-under-dask-index")
+                    continue
                 fails.append((util.exc_bucket("compute", e), f"output {o}: " + util.exc_detail(e)))
                 continue
         why = util.same(got, vals[o], rtol=0.0, atol=atol)
-        if why:
+        if why and dask_index:
+            labs.add("values-not-judged-under-dask-index")
+        elif why:
             last = prog["stmts"][o - L]["op"] if o >= L else "leaf"
             fails.append((f"values|{why.split(' ')[0]}|last={last}", f"output {o}: {why}\n got={util.short(got)}\n exp={util.short(vals[o])}"))
     if any(int(np.prod(r[2], dtype=object)) > 0 for r in S.REQUESTS[mark:]):
